@@ -640,6 +640,24 @@ func (p *Pos) Repetitions() int {
 }
 
 // HasKings reports whether each side has exactly one king.
+// CastlingFitsBoard reports whether every castling right has its king and
+// rook on their home squares.
+func (p *Pos) CastlingFitsBoard() bool {
+	if p.Castle&CastleWK != 0 && (p.Board[4] != K || p.Board[7] != R) {
+		return false
+	}
+	if p.Castle&CastleWQ != 0 && (p.Board[4] != K || p.Board[0] != R) {
+		return false
+	}
+	if p.Castle&CastleBK != 0 && (p.Board[60] != K|Black || p.Board[63] != R|Black) {
+		return false
+	}
+	if p.Castle&CastleBQ != 0 && (p.Board[60] != K|Black || p.Board[56] != R|Black) {
+		return false
+	}
+	return true
+}
+
 func (p *Pos) HasKings() bool {
 	w, b := 0, 0
 	for _, pc := range p.Board {
